@@ -450,12 +450,16 @@ class System:
         """
         # check that parent(s) are valid
         if isinstance(parent, list):
+            if len(parent) == 0:
+                raise ValueError("parent parameter is empty!")
             if len(parent) > len(set(parent)):
                 raise ValueError("parent paramenter contains duplicates!")
             if comp._component_type != _ComponentTypes.PMUX:
                 raise ValueError("only PMux component can have multiple inputs!")
             for p in parent:
                 self._chk_parent(p)
+            if len(parent) > len(set([self._get_index(p) for p in parent])):
+                raise ValueError("parent paramenter contains duplicates!")
             plist = parent
         else:
             self._chk_parent(parent)
